@@ -37,8 +37,11 @@ func H_C03_fma() {
 	if allFinite {
 		// product exponent (low end) minus u's low-end exponent == d
 		ep := int64(x.exp) - int64(wx*_DW) + int64(y.exp) - int64(wy*_DW)
-		eu := int64(u.exp) - int64(wu*_DW)
-		vAssume(ep-eu == int64(d))
+		// u's exponent is derived (not assumed) so that inputs can be sampled
+		eu := ep - int64(d)
+		ue := eu + int64(wu*_DW)
+		vAssume(vAnd(ue >= MinExp, ue <= MaxExp))
+		u.exp = int32(ue)
 		P = sMulPow10(sMul(specMant(x), specMant(y)), maxInt(d, 0))
 		U = sMulPow10(specMant(u), maxInt(-d, 0))
 		e0 = eu
